@@ -427,7 +427,7 @@ def d_range(site):
                 if len(defs) != 1 or defs[0][2] != 'assign' or defs[0][3]['k'] != 'binop':
                     continue
                 rv = defs[0][3]
-                if rv['op'] != 'Eq':
+                if rv['op'] not in ('Eq', 'Ne'):
                     continue
                 a = single_origin(trace_operand(body, rv['a']))
                 n = op_const_int(rv['b'])
@@ -435,7 +435,11 @@ def d_range(site):
                 if lo is None or n is None or lo != vo or n <= k:
                     continue
                 for v, tb in switch_edges(body, b):
-                    if v == 'otherwise' and [x for x, _ in t['targets']] == [0]:
+                    if rv['op'] == 'Ne' and v == 0 and edge_dominates(body, b, tb, site.bb):
+                        # `if v.len() != 1 { return .. }  v[0]`: the false edge of `!=`
+                        if vo.kind == 'param' or not _mutated_between(body, vo, b, site.bb):
+                            return ('D-range', 'index %d after len(v) != %d was false on the same Vec' % (k, n))
+                    if rv['op'] == 'Eq' and v == 'otherwise' and [x for x, _ in t['targets']] == [0]:
                         if edge_dominates(body, b, tb, site.bb):
                             # v must not change between the test and the index
                             if vo.kind == 'param' or not _mutated_between(body, vo, b, site.bb):
@@ -561,15 +565,17 @@ def _len_edges(body, vroot):
             continue
         l = op_local(t['discr'])
         defs = defuse(body).defs.get(l, []) if l is not None else []
-        if len(defs) != 1 or defs[0][2] != 'assign' or defs[0][3]['k'] != 'binop' or defs[0][3]['op'] != 'Eq':
+        if len(defs) != 1 or defs[0][2] != 'assign' or defs[0][3]['k'] != 'binop' or defs[0][3]['op'] not in ('Eq', 'Ne'):
             continue
         rv = defs[0][3]
         n = op_const_int(rv['b'])
         if n is None or _len_call_root(body, rv['a']) != vroot:
             continue
         for v, tb in switch_edges(body, b):
-            if v == 'otherwise' and [x for x, _ in t['targets']] == [0]:
+            if rv['op'] == 'Eq' and v == 'otherwise' and [x for x, _ in t['targets']] == [0]:
                 out.append((b, tb, n))
+            elif rv['op'] == 'Ne' and v == 0:
+                out.append((b, tb, n))       # the false edge of `len != n` (`if v.len() != 1 { return .. }  v[0]`)
     return out
 
 
@@ -719,6 +725,44 @@ def d_len_plus(site):
         o = single_origin(trace_operand(site.body, x, through_calls=set()))
         if o is not None and o.kind == 'callres' and (o.data.rdef or o.data.callee) in BYTE_LEN:
             return ('D-bound', 'str byte length (<= isize::MAX) + %d fits usize' % k)
+    return None
+
+
+def _len_sum(body, op, depth=0):
+    """(number of byte-length terms, constant part) when the operand is a sum of str / String / Vec lengths and small
+    constants (`op.len() + 1 + rhs.len()`), else None"""
+    k = op_const_int(op)
+    if k is not None:
+        return (0, k) if 0 <= k <= 1 << 20 else None
+    if depth > 4:
+        return None
+    o = single_origin(trace_operand(body, op, through_calls=set()))
+    if o is None:
+        return None
+    if o.kind == 'const' and isinstance(o.data, dict) and o.data.get('int') is not None and not o.proj:
+        return (0, o.data['int']) if 0 <= o.data['int'] <= 1 << 20 else None
+    if o.kind == 'callres' and not o.proj and ((o.data.rdef or o.data.callee) in BYTE_LEN or (o.data.callee or '') in ('std::vec::Vec::<T, A>::len', 'core::slice::<impl [T]>::len', 'std::slice::<impl [T]>::len')):
+        return (1, 0)
+    if o.kind == 'binop' and o.data[2]['op'] in ('AddWithOverflow', 'Add') and o.proj in ((('f', 0),), ()):
+        a, b = _len_sum(body, o.data[2]['a'], depth + 1), _len_sum(body, o.data[2]['b'], depth + 1)
+        if a is None or b is None:
+            return None
+        return (a[0] + b[0], a[1] + b[1])
+    return None
+
+
+def d_len_sum(site):
+    """the sum of at most two lengths of live strings / vectors and a small constant (a capacity hint): each length is at
+    most isize::MAX, so the sum fits usize"""
+    rv = _assert_binop(site)
+    if rv is None or rv['op'] != 'AddWithOverflow' or rv.get('aty') != 'usize':
+        return None
+    a, b = _len_sum(site.body, rv['a']), _len_sum(site.body, rv['b'])
+    if a is None or b is None:
+        return None
+    n, k = a[0] + b[0], a[1] + b[1]
+    if 1 <= n <= 2 and k <= 1 << 20:
+        return ('D-bound', 'sum of %d byte / element length(s) (each <= isize::MAX) and %d fits usize' % (n, k))
     return None
 
 
@@ -925,7 +969,7 @@ def d_checked_index(site):
     return None
 
 
-DISCHARGERS = [d_guard, d_total, d_lock, d_range, d_len_eq, d_bp, d_vetted, d_counter, d_balanced, d_index_succ, d_len_plus, d_checked_index]
+DISCHARGERS = [d_guard, d_total, d_lock, d_range, d_len_eq, d_bp, d_vetted, d_counter, d_balanced, d_index_succ, d_len_plus, d_len_sum, d_checked_index]
 
 
 def evaluate(bodies, extra_dischargers=(), rule='PANIC'):
